@@ -91,7 +91,7 @@ def build(repo):
                 let callee = callee_code(old(self).functions_code@, f@)->Some_0;
                 assert(code_eq(code2.code@, callee));
             }""")
-    pc.sub(r"(self\.out\.append_label\(fmt_\w+\(\(self\.inline_label_counter\) as i128\)\))(\s*\n\s*\})", r"\1;\2", "tail expression of type () terminated with `;` (hint placement)", expect=1)
+    pc.sub(r"(self\.out\.append_label\([^;]*?\))(\s*\n\s*\})", r"\1;\2", "tail expression of type () terminated with `;` (hint placement)", expect=1)
     pc.at_block_end(r"if let Some\(_fx\) = &self\.current_function \{", """            proof {
                 let callee = callee_code(old(self).functions_code@, f@)->Some_0;
                 let n = self.inline_label_counter;
@@ -105,7 +105,7 @@ def build(repo):
             }""")
     # generate_return tail
     s0, ob0, cb0 = gs.find_fn_span("generate_return")
-    tail = gs.block(r"^\s*if f\.inline \{", r"^\s*self\.acc_in_use = false;", s0, cb0, desc="generate_return(): tail `if f.inline { JMP .endof } else { RTS }` (R8)")
+    tail = gs.block(r"^\s*if f\.inline\b", r"^\s*self\.acc_in_use = false;", s0, cb0, desc="generate_return(): tail `if f.inline { JMP .endof } else { RTS }` (R8)")
     cuts.append(tail)
     tail.sub(r"\"\.endof\"\.into\(\)", '".endof".to_string()', "R3-into", expect=(0, 1))
     ret = """
@@ -123,11 +123,12 @@ def build(repo):
         Ok(())
     }
 """ % tail.text
+    fshim, fcut = common.plain_fields_shim(SourceFile(repo, "src/compile.rs"), "Function", "FunctionShim")
     shim = e["shim"].replace("    pub inline_label_counter: u32,\n", "    pub inline_label_counter: u32,\n    pub functions_code: HashMap<String, AssemblyCode>,\n")
     if "functions_code" not in shim:
         raise Undecided("U-asm shim changed shape")
     text = common.PRELUDE + common.header_comment(NAME, cuts) + "verus! {\n" + e["types"] + e["specs"] + \
-        "pub struct FunctionShim { pub inline: bool }\n" + u_appcode.SPECS + \
+        fshim + u_appcode.SPECS + \
         e["append_impl"].replace("impl AssemblyCode {\n", "impl AssemblyCode {\n" + append_code_stub, 1) + shim + SPECS + fm.text() + \
         "impl<'a> GeneratorState<'a> {\n" + e["stubs"] + "\n" + pc.text + "\n" + ret + "\n}\n" + common.CANARY + "\n} // verus!\n"
     u.text[None] = text
